@@ -324,7 +324,7 @@ func protocolPolicies(tier string) []Policy {
 		thresholdPolicy(2, idPools[0][:2]),
 		thresholdPolicy(2, idPools[1][:3]),
 		unanimityPolicy(idPools[0][:3]),
-		cnfPolicy([]int{0b001, 0b110}, idPools[0][:3]),              // unq {1},{2,3}
+		cnfPolicy([]int{0b001, 0b110}, idPools[0][:3]), // unq {1},{2,3}
 		hierarchicalPolicy([][2]int{{1, 1}, {2, 2}}, sortedPool(idPools[1], 3)),
 		gatePolicy(&gate{1, []any{&gate{2, []any{0, 1}}, &gate{2, []any{0, 2}}}}, idPools[0][:3]), // non-ideal: holder 1 owns two rows
 	}
